@@ -49,6 +49,7 @@ def run(ctx, rep):
     rep.check('D3.rows', pd_, red[0] if red else pd_.node.name, not red, 'finite-difference fallback is elementwise',
               'the finite-difference fallback reduces over the batch', construct='Bivariate.partial_derivative')
     rep.guarded('D6.fd', finite_difference, ctx, rep)
+    rep.guarded('D7.derivative', mean_value_checks, ctx, rep)
 
 
 # ------------------------------------------------------------------ D6 finite-difference fallback
@@ -193,3 +194,67 @@ def finite_difference(ctx, rep):
         rep.bad('D6.fd', fn, anchor, '; '.join(problems), construct=cons)
     else:
         rep.ok('D6.fd', fn, anchor, f'(C(copy of X with column 1 moved by {vals[0][0]:g} / {vals[1][0]:g}) - C(X)) / that step', construct=cons)
+
+
+# ------------------------------------------------------------------ D7 mean-value refutation of the derivative identities
+def mean_value_checks(ctx, rep):
+    """h = dC/dv and c = dh/du, refutation only.  For an exact theta and a point (u0, v0) the difference quotient
+    (C(u0, v0 + d) - C(u0, v0)) / d equals dC/dv at some v in [v0, v0 + d] (mean value theorem); if partial_derivative is
+    that derivative, the quotient lies in the interval partial_derivative takes on u0 x [v0, v0 + d].  Both sides are
+    computed by the interval interpreter; disjoint intervals refute the identity on that segment.  Same for the density
+    against the difference quotient of partial_derivative in u."""
+    from ..ivkind import IV, evaluate
+    from .ivcases import EXACT_THETAS, Q
+    rep.rule('D7.derivative', 'mean-value refutation: the difference quotient of the CDF in v lies in the range of partial_derivative over the segment, '
+             'and the difference quotient of partial_derivative in u lies in the range of probability_density over the segment (exact theta, refutation only)')
+    k = 8 if ctx.thorough else 4
+    pts = [0.05 + 0.9 * i / k for i in range(k + 1)]
+    d = 1e-3
+    cache = ctx.memo.setdefault('ivcases', {}).setdefault('dom', {})
+    dom = (IV(1e-4, 1 - 1e-4), IV(1e-4, 1 - 1e-4))   # the other rows of a batch: the property's open unit square
+
+    def single(cls, method, th, u, v):
+        alts = evaluate(ctx, cls, method, th, u, v, alts=True, domain=dom, domcache=cache)
+        vals = [x for x, definite, _ in alts if definite]
+        if len(alts) == 1 and len(vals) == 1 and isinstance(vals[0], IV) and not vals[0].nan:
+            return vals[0]
+        return None
+
+    for fam in ('Clayton', 'Frank', 'Gumbel'):
+        cls = ctx.prog.cls(Q[fam])
+        for (label, low, high, axis) in (('partial_derivative = dC/dv', 'cumulative_distribution', 'partial_derivative', 'v'),
+                                         ('probability_density = d(partial_derivative)/du', 'partial_derivative', 'probability_density', 'u')):
+            fn = cls.lookup(high)
+            cons = f'{fam}: {label}'
+            total = und = 0
+            refuted = None
+            for th in EXACT_THETAS[fam]:
+                for u0 in pts:
+                    for v0 in pts:
+                        total += 1
+                        if axis == 'v':
+                            f1, f0 = single(cls, low, th, IV(u0), IV(v0 + d)), single(cls, low, th, IV(u0), IV(v0))
+                            rng = single(cls, high, th, IV(u0), IV(v0, v0 + d))
+                        else:
+                            f1, f0 = single(cls, low, th, IV(u0 + d), IV(v0)), single(cls, low, th, IV(u0), IV(v0))
+                            rng = single(cls, high, th, IV(u0, u0 + d), IV(v0))
+                        if f1 is None or f0 is None or rng is None:
+                            und += 1
+                            continue
+                        q = IV((f1.lo - f0.hi) / d, (f1.hi - f0.lo) / d)
+                        tol = 1e-6 + 1e-6 * max(abs(rng.lo), abs(rng.hi))
+                        if q.lo > rng.hi + tol or q.hi < rng.lo - tol:
+                            refuted = (th, u0, v0, q, rng)
+                            break
+                    if refuted:
+                        break
+                if refuted:
+                    break
+            if refuted:
+                th, u0, v0, q, rng = refuted
+                seg = f'u = {u0:g}, v in [{v0:g}, {v0 + d:g}]' if axis == 'v' else f'u in [{u0:g}, {u0 + d:g}], v = {v0:g}'
+                rep.bad('D7.derivative', fn, fn.node.name, f'{fam} theta = {th.lo:g}, {seg}: the difference quotient of {low} lies in {q} but {high} only takes values in {rng} '
+                        f'on that segment: {high} is not the derivative of {low}', construct=cons)
+            else:
+                rep.undecided('D7.derivative', fn, fn.node.name, f'{label}: not refuted on any of {total} segments'
+                              f'{" (" + str(und) + " not evaluated)" if und else ""} (an identity between functions; intervals can refute it, not prove it)', construct=cons)
